@@ -478,8 +478,9 @@ func (dp *DataProcessor) processAggregationResults(results []map[string]any) {
 	dp.stream.applyOrderBy(finalResults)
 
 	// Apply LIMIT restriction
-	if dp.stream.config.Limit > 0 && len(finalResults) > dp.stream.config.Limit {
-		finalResults = finalResults[:dp.stream.config.Limit]
+	// Limit == 0 means "no LIMIT" unless the query spelled LIMIT 0 (HasLimit), which keeps no row.
+	if limit := dp.stream.config.Limit; (limit > 0 || dp.stream.config.HasLimit) && len(finalResults) > limit {
+		finalResults = finalResults[:limit]
 	}
 
 	// Send results to result channel and Sink functions
